@@ -78,6 +78,13 @@ Proof.
   rewrite (Ha i Hi). unfold ret, fuel_of. cbn [is_global]. rewrite Hp. reflexivity.
 Qed.
 
+(* what compile_scalar needs to know about the compiler state: the first n variables resolve to the global slots
+   0 .. n-1, without changing the state, and this stays so when constants are appended *)
+Definition res_ok (names : list (list N)) (st : cstate) (n : nat) : Prop :=
+  forall ks i, i < n ->
+    resolve_cur (nth i names []) (add_consts st ks) =
+    inr ({| rs_sym := sym_of names i; rs_scope := Global; rs_depth := 0; rs_free := 0 |}, add_consts st ks).
+
 Lemma add_consts_tabs st ks : st_tabs (add_consts st ks) = st_tabs st.
 Proof. unfold add_consts. destruct (st_stack st); reflexivity. Qed.
 
@@ -97,68 +104,131 @@ Proof. destruct o; reflexivity. Qed.
 Lemma binop_code_op o : binop_code (op_text o) = Some (I (op_code o)).
 Proof. destruct o; reflexivity. Qed.
 
+Lemma add_consts_twice st ka kb : add_consts (add_consts st ka) kb = add_consts st (ka ++ kb).
+Proof.
+  unfold add_consts. destruct (st_stack st) as [|w r] eqn:E; cbn [st_stack]; [rewrite E; reflexivity|].
+  cbn [w_consts with_consts]. rewrite app_assoc. reflexivity.
+Qed.
+
+Lemma res_ok_add names st n ks : res_ok names st n -> res_ok names (add_consts st ks) n.
+Proof. intros H ks' i Hi. rewrite add_consts_twice. apply H. exact Hi. Qed.
+
+Lemma res_ok_here names st n w r i : st_stack st = w :: r -> res_ok names st n -> i < n ->
+  resolve_cur (nth i names []) st = inr ({| rs_sym := sym_of names i; rs_scope := Global; rs_depth := 0; rs_free := 0 |}, st).
+Proof. intros Hs H Hi. specialize (H [] i Hi). rewrite (add_consts_nil st w r Hs) in H. exact H. Qed.
+
+(* at the root: table 0 knows the variables *)
+Lemma res_ok_root names st w r n :
+  st_stack st = w :: r -> w_tab w = 0 -> tabs_ok names (st_tabs st) n -> res_ok names st n.
+Proof.
+  intros Hs Hw Ht ks i Hi.
+  apply (resolve_cur_bound names (add_consts st ks) (with_consts w (w_consts w ++ ks)) r n i).
+  - apply add_consts_stack. exact Hs.
+  - exact Hw.
+  - rewrite add_consts_tabs. exact Ht.
+  - exact Hi.
+Qed.
+
 (* the compiler emits exactly [cexp], appends exactly its constants, and touches nothing else *)
-Theorem compile_scalar : forall names n e f st w r,
-  st_stack st = w :: r -> w_tab w = 0 -> tabs_ok names (st_tabs st) n -> wf n e = true -> height e <= f ->
+Theorem compile_scalar_res : forall names n e f st w r,
+  st_stack st = w :: r -> res_ok names st n -> wf n e = true -> height e <= f ->
   compile f (embed names e) st =
   inr (I (fst (cexp (length (w_consts w)) e)), add_consts st (snd (cexp (length (w_consts w)) e))).
 Proof.
   intros names n.
   induction e as [z|b| |i|a IHa|a IHa|o a IHa b IHb|a IHa b IHb|a IHa b IHb|c IHc t IHt e IHe];
-    intros f st w r Hst Hw Ht Hwf Hf; cbn [height] in Hf; (destruct f as [|f]; [lia|]); cbn [embed]; cbn [wf] in Hwf.
+    intros f st w r Hst Ht Hwf Hf; cbn [height] in Hf; (destruct f as [|f]; [lia|]); cbn [embed]; cbn [wf] in Hwf.
   - rewrite compile_NInt. unfold bind. rewrite (constant_spec _ _ _ _ Hst). reflexivity.
   - rewrite compile_NBool. cbn. rewrite (add_consts_nil _ _ _ Hst). reflexivity.
   - rewrite compile_NNil. cbn. rewrite (add_consts_nil _ _ _ Hst). reflexivity.
   - apply Nat.ltb_lt in Hwf. rewrite compile_NIdent. unfold bind.
-    rewrite (resolve_cur_bound names st w r n i Hst Hw Ht Hwf). cbn. rewrite (add_consts_nil _ _ _ Hst). reflexivity.
-  - rewrite compile_NPrefix. unfold bind. rewrite (IHa f st w r Hst Hw Ht Hwf) by lia.
+    rewrite (res_ok_here names st n w r i Hst Ht Hwf). cbn. rewrite (add_consts_nil _ _ _ Hst). reflexivity.
+  - rewrite compile_NPrefix. unfold bind. rewrite (IHa f st w r Hst Ht Hwf) by lia.
     cbn [cexp]. destruct (cexp (length (w_consts w)) a) as [ca ka]. cbn. rewrite I_app. reflexivity.
-  - rewrite compile_NPrefix. unfold bind. rewrite (IHa f st w r Hst Hw Ht Hwf) by lia.
+  - rewrite compile_NPrefix. unfold bind. rewrite (IHa f st w r Hst Ht Hwf) by lia.
     cbn [cexp]. destruct (cexp (length (w_consts w)) a) as [ca ka]. cbn. rewrite I_app. reflexivity.
   - apply andb_true_iff in Hwf. destruct Hwf as [Hwa Hwb].
     rewrite compile_NInfix, op_text_not_logic. unfold bind.
-    rewrite (IHa f st w r Hst Hw Ht Hwa) by lia. cbn [cexp].
+    rewrite (IHa f st w r Hst Ht Hwa) by lia. cbn [cexp].
     destruct (cexp (length (w_consts w)) a) as [ca ka] eqn:Ea. cbn [fst snd].
     pose proof (add_consts_stack st w r ka Hst) as Hst2.
-    assert (Ht2 : tabs_ok names (st_tabs (add_consts st ka)) n) by (rewrite add_consts_tabs; exact Ht).
-    rewrite (IHb f _ _ r Hst2 Hw Ht2 Hwb) by lia. cbn [w_consts with_consts]. rewrite app_length.
+    pose proof (res_ok_add names st n ka Ht) as Ht2.
+    rewrite (IHb f _ _ r Hst2 Ht2 Hwb) by lia. cbn [w_consts with_consts]. rewrite app_length.
     destruct (cexp (length (w_consts w) + length ka) b) as [cb kb] eqn:Eb. cbn [fst snd].
     rewrite binop_code_op. unfold ret. rewrite (add_consts_app _ _ _ _ _ Hst). rewrite !I_app. reflexivity.
   - apply andb_true_iff in Hwf. destruct Hwf as [Hwa Hwb].
     rewrite compile_NInfix. change (beq [38;38]%N [38;38]%N || beq [38;38]%N [124;124]%N) with true. cbn iota. unfold bind.
-    rewrite (IHa f st w r Hst Hw Ht Hwa) by lia. cbn [cexp].
+    rewrite (IHa f st w r Hst Ht Hwa) by lia. cbn [cexp].
     destruct (cexp (length (w_consts w)) a) as [ca ka] eqn:Ea. cbn [fst snd].
     pose proof (add_consts_stack st w r ka Hst) as Hst2.
-    assert (Ht2 : tabs_ok names (st_tabs (add_consts st ka)) n) by (rewrite add_consts_tabs; exact Ht).
-    rewrite (IHb f _ _ r Hst2 Hw Ht2 Hwb) by lia. cbn [w_consts with_consts]. rewrite app_length.
+    pose proof (res_ok_add names st n ka Ht) as Ht2.
+    rewrite (IHb f _ _ r Hst2 Ht2 Hwb) by lia. cbn [w_consts with_consts]. rewrite app_length.
     destruct (cexp (length (w_consts w) + length ka) b) as [cb kb] eqn:Eb. cbn [fst snd].
     unfold ret. rewrite (add_consts_app _ _ _ _ _ Hst).
     change (beq [38; 38]%N [38; 38]%N) with true. cbn iota zeta.
     rewrite <- I_app, nlen_I. rewrite !I_app. cbn [I map app]. reflexivity.
   - apply andb_true_iff in Hwf. destruct Hwf as [Hwa Hwb].
     rewrite compile_NInfix. change (beq [124;124]%N [38;38]%N || beq [124;124]%N [124;124]%N) with true. cbn iota. unfold bind.
-    rewrite (IHa f st w r Hst Hw Ht Hwa) by lia. cbn [cexp].
+    rewrite (IHa f st w r Hst Ht Hwa) by lia. cbn [cexp].
     destruct (cexp (length (w_consts w)) a) as [ca ka] eqn:Ea. cbn [fst snd].
     pose proof (add_consts_stack st w r ka Hst) as Hst2.
-    assert (Ht2 : tabs_ok names (st_tabs (add_consts st ka)) n) by (rewrite add_consts_tabs; exact Ht).
-    rewrite (IHb f _ _ r Hst2 Hw Ht2 Hwb) by lia. cbn [w_consts with_consts]. rewrite app_length.
+    pose proof (res_ok_add names st n ka Ht) as Ht2.
+    rewrite (IHb f _ _ r Hst2 Ht2 Hwb) by lia. cbn [w_consts with_consts]. rewrite app_length.
     destruct (cexp (length (w_consts w) + length ka) b) as [cb kb] eqn:Eb. cbn [fst snd].
     unfold ret. rewrite (add_consts_app _ _ _ _ _ Hst).
     change (beq [124; 124]%N [38; 38]%N) with false. cbn iota zeta.
     rewrite <- I_app, nlen_I. rewrite !I_app. cbn [I map app]. reflexivity.
   - apply andb_true_iff in Hwf. destruct Hwf as [Hwct Hwe]. apply andb_true_iff in Hwct. destruct Hwct as [Hwc Hwt].
     rewrite compile_NTernary. unfold bind.
-    rewrite (IHc f st w r Hst Hw Ht Hwc) by lia. cbn [cexp].
+    rewrite (IHc f st w r Hst Ht Hwc) by lia. cbn [cexp].
     destruct (cexp (length (w_consts w)) c) as [cc kc] eqn:Ec. cbn [fst snd].
     pose proof (add_consts_stack st w r kc Hst) as Hst2.
-    assert (Ht2 : tabs_ok names (st_tabs (add_consts st kc)) n) by (rewrite add_consts_tabs; exact Ht).
-    rewrite (IHt f _ _ r Hst2 Hw Ht2 Hwt) by lia. cbn [w_consts with_consts]. rewrite app_length.
+    pose proof (res_ok_add names st n kc Ht) as Ht2.
+    rewrite (IHt f _ _ r Hst2 Ht2 Hwt) by lia. cbn [w_consts with_consts]. rewrite app_length.
     destruct (cexp (length (w_consts w) + length kc) t) as [ct kt] eqn:Et. cbn [fst snd].
     rewrite (add_consts_app _ _ _ _ _ Hst).
     pose proof (add_consts_stack st w r (kc ++ kt) Hst) as Hst3.
-    assert (Ht3 : tabs_ok names (st_tabs (add_consts st (kc ++ kt))) n) by (rewrite add_consts_tabs; exact Ht).
-    rewrite (IHe f _ _ r Hst3 Hw Ht3 Hwe) by lia. cbn [w_consts with_consts]. rewrite !app_length, Nat.add_assoc.
+    pose proof (res_ok_add names st n (kc ++ kt) Ht) as Ht3.
+    rewrite (IHe f _ _ r Hst3 Ht3 Hwe) by lia. cbn [w_consts with_consts]. rewrite !app_length, Nat.add_assoc.
     destruct (cexp (length (w_consts w) + length kc + length kt) e) as [cf kf] eqn:Ef. cbn [fst snd].
     unfold ret. rewrite (add_consts_app _ _ _ _ _ Hst). rewrite <- app_assoc.
     rewrite !nlen_I. rewrite !I_app. cbn [I map app]. reflexivity.
+Qed.
+
+(* the root-table form *)
+Theorem compile_scalar : forall names n e f st w r,
+  st_stack st = w :: r -> w_tab w = 0 -> tabs_ok names (st_tabs st) n -> wf n e = true -> height e <= f ->
+  compile f (embed names e) st =
+  inr (I (fst (cexp (length (w_consts w)) e)), add_consts st (snd (cexp (length (w_consts w)) e))).
+Proof.
+  intros names n e f st w r Hst Hw Ht Hwf Hf.
+  exact (compile_scalar_res names n e f st w r Hst (res_ok_root names st w r n Hst Hw Ht) Hwf Hf).
+Qed.
+
+(* inside a block directly under the root: the current table is empty and its parent is table 0 *)
+Definition block_tb (tb : table) : Prop :=
+  tb_byname tb = [] /\ tb_freebyname tb = [] /\ tb_parent tb = Some 0.
+
+Lemma resolve_cur_block names st w r n i :
+  st_stack st = w :: r -> block_tb (nth (w_tab w) (st_tabs st) dummy_table) ->
+  tabs_ok names (st_tabs st) n -> i < n ->
+  resolve_cur (nth i names []) st =
+  inr ({| rs_sym := sym_of names i; rs_scope := Global; rs_depth := 0; rs_free := 0 |}, st).
+Proof.
+  intros Hs [Hb [Hf Hp]] [Hrp Ha] Hi.
+  unfold resolve_cur, bind, cur. rewrite Hs. unfold resolve, bind, get, get_tab.
+  rewrite Hb, Hf, Hp. cbn [Compiler.assoc]. unfold fuel_of. cbn [resolve_up].
+  rewrite (Ha i Hi). cbn [is_global]. rewrite Hrp. reflexivity.
+Qed.
+
+Lemma res_ok_block names st w r n :
+  st_stack st = w :: r -> block_tb (nth (w_tab w) (st_tabs st) dummy_table) ->
+  tabs_ok names (st_tabs st) n -> res_ok names st n.
+Proof.
+  intros Hs Hb Ht ks i Hi.
+  apply (resolve_cur_block names (add_consts st ks) (with_consts w (w_consts w ++ ks)) r n i).
+  - apply add_consts_stack. exact Hs.
+  - rewrite add_consts_tabs. exact Hb.
+  - rewrite add_consts_tabs. exact Ht.
+  - exact Hi.
 Qed.
